@@ -450,6 +450,7 @@ func VerifyFunc(w *World, c *Contract) (res *FuncResult) {
 	fi := c.Fn
 	x := newExec(w, fi, c)
 	x.usedContracts = map[string]bool{}
+	x.returnsSeen = map[*Clause]bool{}
 	x.boxedDone = map[*FuncInfo]bool{}
 	x.opts.NilDeref = c.Safety["nil-deref"]
 	res = &FuncResult{Func: fi.Name, Contract: c, Ctx: x.ctx}
@@ -463,6 +464,11 @@ func VerifyFunc(w *World, c *Contract) (res *FuncResult) {
 			case pathEnd:
 			default:
 				panic(r)
+			}
+		}
+		for _, e := range c.Returns {
+			if !x.returnsSeen[e] && len(res.Errors) == 0 {
+				res.Errors = append(res.Errors, fmt.Sprintf("returns clause at %s:%d could not be evaluated at any return (a local it mentions does not exist)", shortFile(e.File), e.Line))
 			}
 		}
 		res.Obligations = x.obls
@@ -695,7 +701,26 @@ func (x *Exec) checkPost(st *State, fr *frame, pos token.Pos) {
 	for _, e := range c.Returns {
 		env := mkEnv()
 		env.locals = true
-		g := x.specBool(env, e)
+		// a clause about locals that are not yet in scope at an early return does not apply there;
+		// it must apply at one return at least (checked when the function is finished)
+		var g Term
+		skipped := false
+		func() {
+			defer func() {
+				if r := recover(); r != nil {
+					if sf, ok := r.(specFail); ok && strings.HasPrefix(sf.msg, "unknown identifier") {
+						skipped = true
+						return
+					}
+					panic(r)
+				}
+			}()
+			g = env.evalBool(e.Expr)
+		}()
+		if skipped {
+			continue
+		}
+		x.returnsSeen[e] = true
 		o := x.emit(st, "returns", e.Label, g, e.Props, "at every return: "+e.Text, pos)
 		o.ClauseText = e.Text
 	}
